@@ -75,7 +75,7 @@ def extract(repo, out, profile):
     env["MOSFACTS_RUSTFLAGS"] = p["rustflags"]
     t0 = time.time()
     r = subprocess.run(
-        [os.path.join(VERIF, "engine", "run_extract.sh"), repo, out] + p["cargo"],
+        [os.path.join(VERIF, "engine", "run_extract.sh"), repo, out, profile] + p["cargo"],
         env=env, stdout=subprocess.PIPE, stderr=subprocess.STDOUT, text=True)
     if r.returncode != 0:
         sys.stdout.write(r.stdout)
